@@ -629,9 +629,7 @@ def _check_edit_history(opname, model):
         op = getattr(ops, opname)()
         try:
             _exec(op, opname, fm)
-            edit(fm)
-            if bd.observe(fm) != em:
-                raise AssertionError('in-place edit did not give the expected model: %s' % what)
+            cm.checked_edit(fm, edit, model, em, what)
             got = _canon(_exec(op, opname, fm, raw=True))
             fresh = _canon(_exec(getattr(ops, opname)(), opname, bd.build(em), raw=True))
         except AssertionError:
